@@ -7,13 +7,13 @@ RULE = ("every stimulus script (deliver request / release its backend call / han
         "complete reply frames, of calls inside the backend and the return of Handle must be a state of the graph")
 
 
-def own(name, script, finding):
-    return True
+def own(name, script, finding, detail=None):
+    return connloop.flush_related(detail)
 
 
 def run(tier, seed):
-    cfgs = ["flush-basic", "flush-twice", "flush-chain"] if tier == "quick" else \
-        ["flush-basic", "flush-self", "flush-chain", "flush-twice", "flush-idle", "flush-rename"]
+    cfgs = ["flush-basic", "flush-twice", "flush-chain", "flush-self-busy"] if tier == "quick" else \
+        ["flush-basic", "flush-self", "flush-chain", "flush-twice", "flush-idle", "flush-rename", "flush-self-busy"]
     return connloop.run("C14", tier, seed, cfgs, own, RULE, 150 if tier == "quick" else None)
 
 
